@@ -154,15 +154,7 @@ def generate(repo):
             src = W(find_func(tree, fn, 'SequenceComplexity'))
             for fr in frags:
                 need(' '.join(fr.split()) in src, '%s: missing `%s`' % (fn, fr[:50]))
-        has('CWF', 'step = 0', 'while step <= len(sequence) - windowSize:', 'window = sequence[step:step + windowSize]',
-            'for x in alphabet: p = float(window.count(x)) / windowSize if p > 0: CWF = p * math.log(p, len(alphabet)) + CWF',
-            'CWF_array.append(-CWF)', 'step = step + stepSize')
-        has('LC', 'while step <= len(sequence) - windowSize:', 'for i in range(0, windowSize - wordSize):', 'position = step + i',
-            "ngram = ''.join(sequence[position:position + wordSize])", 'if ngram not in ngrams: ngrams.add(ngram)', 'v = len(ngrams)',
-            'vmax = min(len(alphabet) ** wordSize, windowSize - 1 + wordSize)', 'LC = float(v) / vmax', 'step = step + stepSize')
-        has('LZW', 'while step <= len(sequence) - windowSize:', "w = ''", 'for i in range(0, windowSize):',
-            'if w + sequence[position] in ngrams: w = sequence[position] + w else: ngrams.add(w + sequence[position]) w = sequence[position]',
-            'n = len(ngrams)', 'LZW = float(n) / windowSize', 'step += stepSize')
+        # CWF, LC and LZW are tied semantically (g_minipy -> Props/Tie/minipy_complexity_tie.v)
         for fn, core in (('get_WF_complexity', 'self.CWF(reduced_sequence, alphabet, windowSize, stepSize)'),
                          ('get_LC_complexity', 'self.LC(reduced_sequence, alphabet, windowSize, stepSize, wordSize)'),
                          ('get_LZW_complexity', 'self.LZW(reduced_sequence, alphabet, windowSize, stepSize)')):
